@@ -57,7 +57,7 @@ Proof. induction x as [c|k|w xs|o i m args IH] using pexpr_ind'; intros e H B.
   - rewrite to_e_op in H. destruct (mapM to_e args) as [es|] eqn:K; [|discriminate]. inversion H; subst e.
     rewrite of_e_op. simpl in B.
     assert (M : mapM of_e es = Some args).
-    { apply mapM_inv in K. apply mapM_of_Forall2. revert B IH. induction K as [|a e' args es Hae _ IHK]; intros B IH; [constructor|].
+    { clear H. apply mapM_inv in K. apply mapM_of_Forall2. revert B IH. induction K as [|a e' args es Hae _ IHK]; intros B IH; [constructor|].
       simpl in B. apply andb_true_iff in B. destruct B as [Ba Bt]. inversion IH as [|? ? IHa IHt]; subst.
       constructor; [exact (IHa e' Hae Ba)|exact (IHK Bt IHt)]. }
     rewrite M. reflexivity. Qed.
@@ -89,8 +89,10 @@ Variable E : penv.
 (* the string-literal layer (Proofs/PipePrintP1.py_unquote_repr, handed in by Props/C12.v) *)
 Hypothesis unq : forall s, py_unquote (py_repr (e_np E) s) = Some s.
 
+Lemma eval_atom_str l : eval_syn E (SAtom (TkStr l)) = option_map YStr (py_unquote l).
+Proof. reflexivity. Qed.
 Lemma eval_str s : eval_syn E (str_syn E s) = Some (YStr s).
-Proof. simpl. rewrite unq. reflexivity. Qed.
+Proof. unfold str_syn. rewrite eval_atom_str, unq. reflexivity. Qed.
 
 Lemma eval_list xs :
   eval_syn E (SList xs) = option_map YList (mapM (eval_syn E) xs).
@@ -106,7 +108,7 @@ Proof. simpl. f_equal. induction kvs as [|kv t IH]; simpl; [reflexivity|]. rewri
 Definition eval_args (args : list (option string * syn)) : option args_t :=
   mapM (fun a => option_map (fun v => (fst a, v)) (eval_syn E (snd a))) args.
 Lemma eval_call path args :
-  eval_syn E (SCall path args) = match eval_args args with Some a => call_global E path a | None => None end.
+  eval_syn E (SCall path args) = match eval_args args with Some a => call_global path a | None => None end.
 Proof. simpl. unfold eval_args.
   replace ((fix go (l : list (option string * syn)) : option args_t :=
       match l with
@@ -140,12 +142,12 @@ Proof. unfold as_strs1. apply as_strs_list. Qed.
 Lemma eval_sdict tr (kvs : list (string * syn)) (vs : list (string * pyv)) :
   Forall2 (fun kv kw => fst kv = fst kw /\ eval_syn E (snd kv) = Some (snd kw)) kvs vs ->
   eval_syn E (SDict tr (map (fun kv => (str_syn E (fst kv), snd kv)) kvs)) = Some (YDict (map (fun kw => (YStr (fst kw), snd kw)) vs)).
-Proof. intros H. rewrite eval_dict, mapM_map. simpl fst. simpl snd.
+Proof. intros H. rewrite eval_dict, mapM_map. cbn [fst snd].
   assert (M : mapM (fun x : string * syn => match eval_syn E (str_syn E (fst x)), eval_syn E (snd x) with
                                           | Some k, Some v => Some (k, v) | _, _ => None end) kvs
               = Some (map (fun kw => (YStr (fst kw), snd kw)) vs)).
-  { induction H as [|kv kw kvs vs [Hk Hv] _ IH]; simpl; [reflexivity|]. rewrite eval_str, Hv, IH, Hk. reflexivity. }
-  cbn [fst snd]. rewrite M. reflexivity. Qed.
+  { induction H as [|kv kw kvs vs [Hk Hv] _ IH]; [reflexivity|]. cbn [mapM map]. rewrite eval_str, Hv, IH, Hk. reflexivity. }
+  rewrite M. reflexivity. Qed.
 Lemma as_sdict_distinct (vs : list (string * pyv)) :
   NoDup (map fst vs) -> as_sdict (YDict (map (fun kw => (YStr (fst kw), snd kw)) vs)) = Some vs.
 Proof. intros N. simpl. rewrite mapM_map. simpl.
